@@ -13,10 +13,10 @@ import (
 // C08 Crash-restart equivalence.
 
 type c08Oracle struct {
-	tr        *TranscriptOracle
-	infoSeen  map[int]int
-	replayed  int // block attempts executed by the handshaker and compared
-	midCrash  int
+	tr       *TranscriptOracle
+	infoSeen map[int]int
+	replayed int // block attempts executed by the handshaker and compared
+	midCrash int
 }
 
 func (o *c08Oracle) infos(e *core.Engine) []core.Violation {
@@ -97,10 +97,11 @@ func init() {
 		Id: "C08",
 		RuleText: "each run: reference replica (never crashed) + 1-3 victims executing the same PRNG-built history; victims are killed at PRNG-chosen ABCI boundaries " +
 			"(before/after BeginBlock, each DeliverTx, EndBlock, Commit; also during handshake replay and catch-up, repeatedly) and restarted from a byte copy of their open data directory through the real Handshaker. " +
-			"Oracles: Info after reopen == victim's own last completed commit; handshake completes; every (re)executed block attempt equals the reference's results; victims reach the tip once faults stop. " +
+			"Oracles: Info after reopen == victim's own last completed commit; handshake completes; every (re)executed block attempt equals the reference's results (code, data, gas, events of every transaction; validator updates; app hash); victims reach the tip once faults stop. " +
 			"Non-trivial: >=1 crash strictly inside a block followed by a handshake replay of a block with >=1 successful transaction; distinct = distinct fingerprints.",
 		MakeSetup: func(rng *rand.Rand, tier string, seed uint64) *Setup {
 			k := SwarmKnobs(rng)
+			k.MaxGas = drawMaxGas(rng)
 			su := &Setup{Knobs: k, Sess: gen.NewSession()}
 			nv := 1 + rng.Intn(3)
 			su.Replicas = append(su.Replicas, core.ReplicaConf{Identity: "x0", Quiet: true, Recent: 10, Every: 100, Cycles: 10, WitnessInitEarly: true})
@@ -130,7 +131,9 @@ func init() {
 			return su
 		},
 		MakeOracle: func(e *core.Engine, tr *core.Trace) Oracle {
-			return &c08Oracle{tr: NewTranscriptOracle("C08", "transcript-equality"), infoSeen: map[int]int{}}
+			to := NewTranscriptOracle("C08", "transcript-equality")
+			to.Events = true
+			return &c08Oracle{tr: to, infoSeen: map[int]int{}}
 		},
 	})
 }
